@@ -197,7 +197,7 @@ PROPS["C17"] = {
 PROPS["C18"] = {
     "kind": "harness", "test": "TestC18", "level": "exploration", "journal": True,
     "tiers": tiers(3000, 8, 50000, 16),
-    "rule": "rapid-generated cases: a session state (database selected and populated with four tables over all four column types holding NULLs, an empty table; no USE yet; failed USE; USE of an empty database) and 5-40 statements executed through Session.ExecQuery: "
+    "rule": "rapid-generated cases: a session state (database selected and populated with four tables over all four column types holding NULLs, an empty table; no USE yet; failed USE; USE of an empty database; the populated database with the REAL 100 ms flush timer running and statements held open for 130 ms at a page lookup, so that ticks fall due in the middle of statements) and 5-40 statements executed through Session.ExecQuery: "
             "4 in 5 are drawn from the full statement grammar with identifiers from the same pools the schema uses, so that they resolve tables and columns and then apply AVG/COUNT/ORDER BY/comparisons/INSERT/UPDATE values to columns of arbitrary type and to NULLs, "
             "or miss, duplicate or ambiguously name columns; 1 in 5 from a list of 70 targeted statements (aggregates over VARCHAR/BOOLEAN/NULL, ORDER BY over NULLs and ambiguous keys, mistyped comparisons, catalog tables, degenerate DDL). "
             "Oracle: the call returns nil or an error within 20 s, never panics (recover), the worker never dies (journal), and the session still answers a SELECT afterwards. Non-trivial: the statement parses and the engine refuses it (an error path); distinct by (state, SQL text).",
